@@ -478,7 +478,8 @@ def run(ctx):
     P("base.CaptionSet.is_empty", set_is_empty, functions=[CaptionSet.is_empty], crosscheck=False)
     P("srt._srttomicro", srt_stamp, functions=[SRTReader._srttomicro])
     import props.C01_read as RS
-    RS.prove_srt_read_skeleton(ctx)       # (every block's stamps converted once; cue i gets the numbers of block i)
+    RS.prove_srt_read_skeleton(ctx)
+    RS.prove_microdvd_read_skeleton(ctx)  # (every cue at the rate in force at its own line; a new document at the default rate)       # (every block's stamps converted once; cue i gets the numbers of block i)
     P("webvtt.microseconds", webvtt_microseconds, functions=[webvtt_mod.microseconds])
     P("webvtt._parse_timestamp", webvtt_stamp, functions=[WebVTTReader._parse_timestamp])
     P("webvtt._parse_timing_line", webvtt_timing_line, functions=[WebVTTReader._parse_timing_line])
